@@ -470,6 +470,16 @@ class Parser:
 
         stream.expect(TokenType.RPAREN)
 
+        # The content of a parenthesized expression is a logical expression,
+        # which a bare literal or the result of a value function is not.
+        if isinstance(expr, FilterExpressionLiteral):
+            raise JSONPathSyntaxError(
+                "filter expression literals outside of "
+                "function expressions must be compared",
+                token=expr.token,
+            )
+        self._raise_for_uncompared_value_function(expr)
+
         if self.BINARY_OPERATORS.get(stream.peek.type_) in self.COMPARISON_OPERATORS:
             raise JSONPathSyntaxError(
                 "a parenthesized expression is not comparable", token=stream.peek
